@@ -10,15 +10,22 @@
   criterion) by LS5 `IsLSSolution.perm`, LS6 `IsLSSolution.shift_single` and the two sign lemmas
   of `Lemmas/C07LS.lean`.
 
+  Round 3: the row relations are ASSEMBLED into statements about the design matrix of the whole
+  generated pass (`codeMatrix`) and its least-squares solution for the mirror, the circle rotation
+  and the translation (`Lemmas/C07Assemble.lean`), the statistics are transported (cofactors,
+  "belongs to S", σ, error ellipse on the regenerated `std_error_ellipse`: `Lemmas/C07Cofactor.lean`),
+  and the degrees clause is about the shared model `Gama.Angles.deg2gon` (C18).
+
   Outside the theorems (explored by the metamorphic search only): the iteration of the
-  linearisation to convergence, the approximate orientation (F15), number parsing/printing, and
-  the statistics printed from the cofactor matrix.
+  linearisation to convergence, the approximate orientation (F15), number parsing/printing.
 -/
 import Gama.Lemmas.C07Lin
 import Gama.Lemmas.C07Perm
 import Gama.Lemmas.C07LS
 import Gama.Lemmas.C07Input
 import Gama.Lemmas.C07PointId
+import Gama.Lemmas.C07Assemble
+import Gama.Lemmas.C07Cofactor
 namespace Gama.Props.C07
 open Gama Gama.Lin Real Matrix
 
@@ -176,25 +183,31 @@ theorem C07_pointid_total_order (s t u : PointId.Bytes) :
 
 /-! ## degrees instead of gons -/
 
-/-- a sexagesimal reading `d-m-s` with its standard deviation in seconds of arc, and the centesimal
-    value `g = (d + m/60 + s/3600)·10/9` with the standard deviation `σ` in cc where the seconds are
-    `0.324·σ`: same stored value (radians), same variance, hence the same row of every angular type;
-    `1.0/0.324` is exactly `400·10⁴/(360·3600)` -/
-theorem C07_deg_gon (d m : Nat) (s g σ : ℝ) (hg : g = ((d : ℝ) + (m : ℝ) / 60 + s / 3600) * (10 / 9))
+/-- degrees instead of gons, on the SHARED model of `deg2gon` (`Gama.Angles.deg2gon`, the model C18
+    ties to gon2deg.cpp; `Input.angularValue` — what `process_direction/angle/zangle/azimuth` store —
+    calls it): EVERY string the model accepts (`parseDms str = some (sign, d, m, s)`: white space,
+    signs, exponents included) is read as `±(d + m/60 + s/3600)·10/9` gon, so a sexagesimal value and
+    the centesimal value `g` of the same angle are stored as the same radians; a standard deviation of
+    `0.324·σ` seconds next to it gives the same variance as `σ` cc (`1.0/0.324` is exactly
+    `400·10⁴/(360·3600)`); hence identical rows of every angular type -/
+theorem C07_deg_gon (str : String) (neg : Bool) (d m : ℤ) (s : ℕ × ℤ) (hp : Angles.parseDms str = some (neg, d, m, s))
+    (g σ : ℝ) (hg : g = Input.dmsSign neg * (((d : ℝ) + (m : ℝ) / 60 + (s.1 : ℝ) * (10 : ℝ) ^ s.2 / 3600) * (10 / 9)))
     (fuel : Nat) (o : Obs ℝ) :
-    Input.toRadians (Input.deg2gonValue false d m s : ℝ) = Input.toRadians g ∧
+    (Angles.deg2gon str : Option ℝ) = some g ∧
+    (Input.angularValue str : Option (ℝ × Bool)) = some (g, true) ∧
     Input.variance (0.324 * σ) true = Input.variance σ false ∧
     (Input.secScale : ℝ) = (400 * 10 ^ 4) / (360 * 3600) ∧
-    Gen.Lin.direction fuel { o with value := Input.toRadians (Input.deg2gonValue false d m s : ℝ) } =
-      Gen.Lin.direction fuel { o with value := Input.toRadians g } ∧
-    Gen.Lin.angle fuel { o with value := Input.toRadians (Input.deg2gonValue false d m s : ℝ) } =
-      Gen.Lin.angle fuel { o with value := Input.toRadians g } ∧
-    Gen.Lin.z_angle fuel { o with value := Input.toRadians (Input.deg2gonValue false d m s : ℝ) } =
-      Gen.Lin.z_angle fuel { o with value := Input.toRadians g } ∧
-    Gen.Lin.azimuth fuel { o with value := Input.toRadians (Input.deg2gonValue false d m s : ℝ) } =
-      Gen.Lin.azimuth fuel { o with value := Input.toRadians g } := by
-  have e := Input.toRadians_deg d m s g hg
-  exact ⟨e, Input.variance_deg σ, Input.secScale_real, by rw [e], by rw [e], by rw [e], by rw [e]⟩
+    (∀ v : ℝ, (Angles.deg2gon str : Option ℝ) = some v →
+      Gen.Lin.direction fuel { o with value := Input.toRadians v } = Gen.Lin.direction fuel { o with value := Input.toRadians g } ∧
+      Gen.Lin.angle fuel { o with value := Input.toRadians v } = Gen.Lin.angle fuel { o with value := Input.toRadians g } ∧
+      Gen.Lin.z_angle fuel { o with value := Input.toRadians v } = Gen.Lin.z_angle fuel { o with value := Input.toRadians g } ∧
+      Gen.Lin.azimuth fuel { o with value := Input.toRadians v } = Gen.Lin.azimuth fuel { o with value := Input.toRadians g }) := by
+  have e : (Angles.deg2gon str : Option ℝ) = some g := by
+    rw [Input.deg2gon_real str neg d m s hp, hg, Input.sciToK_real]
+  refine ⟨e, Input.angularValue_deg str g e, Input.variance_deg σ, Input.secScale_real, fun v hv => ?_⟩
+  have : v = g := Option.some.inj (hv.symm.trans e)
+  subst this
+  exact ⟨rfl, rfl, rfl, rfl⟩
 
 /-! ## mirrored axes, sense of angles -/
 
@@ -282,6 +295,150 @@ theorem C07_mirror_covariance (obs : List (Input.NetObs ℝ)) (d : Nat) (hd : d 
   · unfold Input.sgnAt Input.mirroredAt
     cases obs[(i : Nat)]? <;> rfl
 
+/-! ## assembled: the whole generated pass and its least-squares solution -/
+
+/-- **translation, assembled**: the translated description of a whole pass (every point moved;
+    observed `X`, `Y`, `Z` moved with it) linearises to exactly the same outputs, i.e. the same
+    design matrix `codeMatrix`, the same right-hand sides: the identical least-squares problem -/
+theorem C07_translation_assembled {m : Nat} (tx ty tz : ℝ) (fuel : Nat) (rows : Fin m → GenRow) (outs : Fin m → LinOut ℝ) :
+    Linearises fuel (fun i => { rows i with o := trKind tx ty tz (rows i).kind (rows i).o }) outs ↔
+      Linearises fuel rows outs :=
+  translation_pass tx ty tz fuel rows outs
+
+/-- **mirror, assembled (matrix)**: for a pass of observations of any of the 13 classes that
+    linearises in both descriptions, the design matrix `project_equations` builds from the mirrored
+    description is `D_s · A · D_t`: `s = -1` on the rows of directions, angles, azimuths, `Y`, `Ydiff`;
+    `t = -1` on the columns of `y` unknowns and orientations; both descriptions allocate the same
+    unknowns in the same order, so the columns are identified by their number (`castCol`) -/
+theorem C07_mirror_matrix {m : Nat} (fuel fuel' : Nat) (rows : Fin m → GenRow) (outs outs' : Fin m → LinOut ℝ)
+    (hl : Linearises fuel rows outs) (hl' : Linearises fuel' (fun i => mirRow (rows i)) outs')
+    (hg : ∀ i, guard (rows i).kind (rows i).o) (hname : ∀ i r c, ((rows i).name r c).c = c)
+    (σ : Equiv.Perm (Fin m)) :
+    ∃ (hT : ∀ i, touchedU (obOf rows outs' i) = touchedU (obOf rows outs i)),
+      codeMatrix (obOf rows outs') σ =
+        (diagonal (fun r => rowSgn (rows (σ r)).kind) * codeMatrix (obOf rows outs) σ *
+          diagonal (fun j => mirrorSgn (colUnk (obOf rows outs) (obOf_wellTouched fuel rows outs hl hg) σ j).c)).submatrix
+          (Equiv.refl _) (castCol (obOf rows outs) (obOf rows outs') hT σ) :=
+  mirror_codeMatrix fuel fuel' rows outs outs' hl hl' hg hname σ
+
+/-- **mirror, assembled (solution)**: if `(x, v, Φ)` is the least-squares solution of the pass
+    (right-hand sides of the generated rows, any weight matrix `P`, regularisation subset `S`), then
+    the pass generated from the mirrored description — whose weight matrix is `D_s P D_s`, which is
+    what the normalisation produces (`C07_mirror_covariance`) — has the solution with the `y`
+    unknowns and orientations negated, the residuals of the mirrored rows negated, the same Φ and
+    the same regularisation subset.  Exception, stated as hypothesis `hnb`: a direction/angle/azimuth
+    whose right-hand side is EXACTLY `+200 gon` keeps `+200 gon` in the mirrored description
+    (`C07_mirror`), so its row is not the negative row -/
+theorem C07_mirror_assembled {m : Nat} (fuel fuel' : Nat) (rows : Fin m → GenRow) (outs outs' : Fin m → LinOut ℝ)
+    (hl : Linearises fuel rows outs) (hl' : Linearises fuel' (fun i => mirRow (rows i)) outs')
+    (hg : ∀ i, guard (rows i).kind (rows i).o) (hname : ∀ i r c, ((rows i).name r c).c = c)
+    (hnb : ∀ i, (rows i).kind.angular = true → (outs i).rhs ≠ HALF) (σ : Equiv.Perm (Fin m))
+    (P : Matrix (Fin m) (Fin m) ℝ) (S : Finset (Fin (finalState (obOf rows outs) σ).maxn))
+    (x : Fin (finalState (obOf rows outs) σ).maxn → ℝ) (v : Fin m → ℝ) (rtr : ℝ)
+    (h : LS.IsLSSolution (codeMatrix (obOf rows outs) σ) (fun r => (outs (σ r)).rhs) P S x v rtr) :
+    ∃ (hT : ∀ i, touchedU (obOf rows outs' i) = touchedU (obOf rows outs i)),
+      LS.IsLSSolution (codeMatrix (obOf rows outs') σ) (fun r => (outs' (σ r)).rhs)
+        (diagonal (fun r => rowSgn (rows (σ r)).kind) * P * diagonal (fun r => rowSgn (rows (σ r)).kind))
+        (S.map (castCol (obOf rows outs) (obOf rows outs') hT σ).symm.toEmbedding)
+        ((diagonal (fun j => mirrorSgn (colUnk (obOf rows outs) (obOf_wellTouched fuel rows outs hl hg) σ j).c) *ᵥ x) ∘
+          castCol (obOf rows outs) (obOf rows outs') hT σ)
+        (diagonal (fun r => rowSgn (rows (σ r)).kind) *ᵥ v) rtr :=
+  mirror_solution fuel fuel' rows outs outs' hl hl' hg hname hnb σ P S x v rtr h
+
+/-- **non-wrapping sufficient condition for a whole direction set, and the wrap exception.**
+    If every direction of the set satisfies `|rhsᵢ + c·R2CC| < 200 gon`, every row of the turned set
+    has identical events and its right-hand side is exactly `rhsᵢ + c·R2CC` (the hypotheses of LS6).
+    A row whose shifted right-hand side leaves `(-200, 200]` gon is shifted by `c·R2CC − k·400 gon`
+    with `k ≠ 0` instead: it wraps, and the set is no longer a shift along the orientation column. -/
+theorem C07_circle_rotation_nowrap {m : Nat} (fuel fuel' : Nat) (c : ℝ) (rows : Fin m → GenRow) (outs outs' : Fin m → LinOut ℝ)
+    (R : Finset (Fin m)) (hdir : ∀ i ∈ R, (rows i).kind = .direction ∧ ¬ hdist (rows i).o < CUT)
+    (hl : ∀ i ∈ R, Gen.Lin.direction fuel (rows i).o = .ok (outs i))
+    (hl' : ∀ i ∈ R, Gen.Lin.direction fuel' (rotObs c (rows i).o) = .ok (outs' i)) :
+    ((∀ i ∈ R, |(outs i).rhs + c * R2CC| < HALF) →
+      ∀ i ∈ R, (outs' i).evs = (outs i).evs ∧ (outs' i).rhs = (outs i).rhs + c * R2CC) ∧
+    (∀ i ∈ R, ((outs i).rhs + c * R2CC ≤ -HALF ∨ HALF < (outs i).rhs + c * R2CC) →
+      ∃ k : ℤ, k ≠ 0 ∧ (outs' i).rhs = (outs i).rhs + c * R2CC - k * FULL) :=
+  ⟨rotation_nowrap_set fuel fuel' c rows outs outs' R hdir hl hl',
+   fun i hi hw => rotation_wrap_exception fuel fuel' c _ _ _ (hdir i hi).2 (hl i hi) (hl' i hi) hw⟩
+
+/-- **circle rotation, assembled**: in a pass of observations of any classes, the directions `R` of
+    one set (orientation unknown `uOri`, orientation unknown of no other row) are read `c` larger and
+    none of them wraps.  Then the re-expressed pass builds literally the same observations-as-rows
+    (`obOf`, hence the same `codeMatrix`), and, when `uOri` is not in the regularisation subset, its
+    least-squares solution has the same coordinates, residuals and Φ and the orientation unknown
+    smaller by `c·R2CC` (LS6 applied to the generated matrix) -/
+theorem C07_circle_rotation_assembled {m : Nat} (fuel fuel' : Nat) (c : ℝ) (rows : Fin m → GenRow)
+    (outs outs' : Fin m → LinOut ℝ) (R : Finset (Fin m)) (hR : R.Nonempty) (uOri : Unk) (hori : uOri.c = .ori)
+    (hg : ∀ i, guard (rows i).kind (rows i).o) (hname : ∀ i r c, ((rows i).name r c).c = c)
+    (hdir : ∀ i ∈ R, (rows i).kind = .direction ∧ (rows i).name .station .ori = uOri)
+    (hother : ∀ i, i ∉ R → ∀ r, (rows i).name r .ori ≠ uOri)
+    (hl : Linearises fuel rows outs)
+    (hl' : ∀ i ∈ R, Gen.Lin.direction fuel' (rotObs c (rows i).o) = .ok (outs' i))
+    (hsmall : ∀ i ∈ R, |(outs i).rhs + c * R2CC| < HALF)
+    (σ : Equiv.Perm (Fin m)) (P : Matrix (Fin m) (Fin m) ℝ) (S : Finset (Fin (finalState (obOf rows outs) σ).maxn))
+    (x : Fin (finalState (obOf rows outs) σ).maxn → ℝ) (v : Fin m → ℝ) (rtr : ℝ)
+    (h : LS.IsLSSolution (codeMatrix (obOf rows outs) σ) (fun r => (outs (σ r)).rhs) P S x v rtr) :
+    obOf rows (fun i => if i ∈ R then outs' i else outs i) = obOf rows outs ∧
+    ∃ hu : uOri ∈ touchedSet (obOf rows outs),
+      (colOf (obOf rows outs) (obOf_wellTouched fuel rows outs hl hg) σ uOri hu ∉ S →
+        LS.IsLSSolution (codeMatrix (obOf rows outs) σ) (fun r => (if σ r ∈ R then outs' (σ r) else outs (σ r)).rhs) P S
+          (x + (-(c * R2CC)) • Pi.single (colOf (obOf rows outs) (obOf_wellTouched fuel rows outs hl hg) σ uOri hu) 1)
+          v rtr) :=
+  rotation_solution fuel fuel' c rows outs outs' R hR uOri hori hg hname hdir hother hl hl' hsmall σ P S x v rtr h
+
+/-! ## statistics -/
+
+/-- **cofactor transport.**  `Q` a reflexive generalised inverse of the normal matrix `N = AᵀPA` that
+    belongs to the regularisation subset `S`.  (1) For any invertible change of unknowns `T`,
+    `T⁻¹ Q T⁻ᵀ` is a reflexive g-inverse of `Tᵀ N T`.  (2) Mirror (`A' = D_s A D_t`, `P' = D_s P D_s`):
+    the normal matrix is `D_t N D_t`, `Q' = D_t Q D_t` is a reflexive g-inverse of it and belongs to
+    `S`; entry-wise `q'ᵢⱼ = tᵢ tⱼ qᵢⱼ`: every variance (hence every σ) is unchanged and the covariance
+    between a mirrored and a not mirrored unknown changes sign; the cofactors of the adjusted
+    observations are `D_s (A Q Aᵀ) D_s`, diagonal unchanged.  (3) Renumbering (`A.submatrix e₁ e₂`):
+    `Q.submatrix e₂ e₂`, belonging to the carried subset. -/
+theorem C07_cofactor_transport {m n m' n' : Type*} [Fintype m] [Fintype n] [Fintype m'] [Fintype n']
+    [DecidableEq m] [DecidableEq n] [DecidableEq m'] [DecidableEq n']
+    (A : Matrix m n ℝ) (P : Matrix m m ℝ) (Q : Matrix n n ℝ) (S : Finset n)
+    (hQ : LS.IsReflGInv (Aᵀ * P * A) Q) (hb : LS.BelongsTo A S Q) :
+    (∀ T Ti : Matrix n n ℝ, T * Ti = 1 → LS.IsReflGInv (Tᵀ * (Aᵀ * P * A) * T) (Ti * Q * Tiᵀ)) ∧
+    (∀ (s : m → ℝ) (t : n → ℝ), (∀ i, s i * s i = 1) → (∀ j, t j * t j = 1) →
+      LS.IsReflGInv ((diagonal s * A * diagonal t)ᵀ * (diagonal s * P * diagonal s) * (diagonal s * A * diagonal t))
+        (diagonal t * Q * diagonal t) ∧
+      LS.BelongsTo (diagonal s * A * diagonal t) S (diagonal t * Q * diagonal t) ∧
+      (∀ i j, (diagonal t * Q * diagonal t) i j = t i * t j * Q i j) ∧
+      (∀ j, (diagonal t * Q * diagonal t) j j = Q j j) ∧
+      (∀ i j, t i = -t j → (diagonal t * Q * diagonal t) i j = -Q i j) ∧
+      (diagonal s * A * diagonal t) * (diagonal t * Q * diagonal t) * (diagonal s * A * diagonal t)ᵀ =
+        diagonal s * (A * Q * Aᵀ) * diagonal s ∧
+      (∀ i, (diagonal s * (A * Q * Aᵀ) * diagonal s) i i = (A * Q * Aᵀ) i i)) ∧
+    (∀ (e₁ : m' ≃ m) (e₂ : n' ≃ n),
+      LS.IsReflGInv ((A.submatrix e₁ e₂)ᵀ * (P.submatrix e₁ e₁) * (A.submatrix e₁ e₂)) (Q.submatrix e₂ e₂) ∧
+      LS.BelongsTo (A.submatrix e₁ e₂) (S.map e₂.symm.toEmbedding) (Q.submatrix e₂ e₂)) := by
+  refine ⟨fun T Ti h => LS.reflGInv_congr h hQ, fun s t hs ht => ?_, fun e₁ e₂ => ?_⟩
+  · refine ⟨?_, LS.belongsTo_sign s t hs ht hb, LS.conj_sign_apply t Q, fun j => ?_, fun i j hij => ?_,
+      LS.qbb_sign A Q s t ht, fun i => ?_⟩
+    · rw [LS.normalMatrix_sign A P s t hs]; exact LS.reflGInv_sign t ht hQ
+    · rw [LS.conj_sign_apply, ht, one_mul]
+    · rw [LS.conj_sign_apply, hij]
+      have := ht j
+      calc -t j * t j * Q i j = -(t j * t j) * Q i j := by ring
+        _ = -Q i j := by rw [this]; ring
+    · rw [LS.conj_sign_apply, hs, one_mul]
+  · exact ⟨by rw [LS.normalMatrix_perm]; exact LS.reflGInv_perm e₂ hQ, LS.belongsTo_perm e₁ e₂ hb⟩
+
+/-- **error ellipse under the y flip**, on the `std_error_ellipse` regenerated from network.h
+    (`Gen/StatsGen.lean`; the same definition `C09_ellipse_is_eigen_full` characterises as the
+    eigen-decomposition of the block): by `C07_cofactor_transport` the mirrored description has the
+    block `(cxx, -cxy, cyy)`; the reported semi-axes are the same and the bearing of the major axis
+    is `π − α`, with `α = 0 ↦ 0` (i.e. `π − α` modulo `π`, both in `[0, π)`), for EVERY block and `m0` -/
+theorem C07_ellipse_transport (cxx cxy cyy m : ℝ) :
+    (StatsGen.stdErrorEllipse cyy (-cxy) cxx m).1 = (StatsGen.stdErrorEllipse cyy cxy cxx m).1 ∧
+    (StatsGen.stdErrorEllipse cyy (-cxy) cxx m).2.1 = (StatsGen.stdErrorEllipse cyy cxy cxx m).2.1 ∧
+    (StatsGen.stdErrorEllipse cyy (-cxy) cxx m).2.2 =
+      (if (StatsGen.stdErrorEllipse cyy cxy cxx m).2.2 = 0 then 0 else π - (StatsGen.stdErrorEllipse cyy cxy cxx m).2.2) ∧
+    0 ≤ (StatsGen.stdErrorEllipse cyy cxy cxx m).2.2 ∧ (StatsGen.stdErrorEllipse cyy cxy cxx m).2.2 < π :=
+  ellipse_mirror cxx cxy cyy m
+
 /-! ## non-vacuity -/
 
 /-- a concrete sight (3-4-5 triangle, both ends free) on which translation, swap and mirror
@@ -335,9 +492,58 @@ example : ∃ obs : Fin 2 → Ob ℝ, (∀ i, wellTouched (obs i).evs [] = true)
   · intro i; fin_cases i <;> rfl
   all_goals decide
 
-/-- 10-20-30 sexagesimal is 11.4907… gon = (10 + 20/60 + 30/3600)·10/9 -/
-example : (Input.deg2gonValue false 10 20 (30 : ℝ) : ℝ) = ((10 : ℝ) + 20 / 60 + 30 / 3600) * (400 / 360) := by
-  have := Input.deg2gonValue_pos 10 20 (30 : ℝ); simpa using this
+/-- the shared model accepts `10-20-30`, ` +10-20-3e1 ` (white space, sign, exponent) with the same
+    fields, so `C07_deg_gon` applies to both: 11.4907… gon -/
+example : Angles.parseDms "10-20-30" = some (false, 10, 20, (30, 0)) ∧
+    Angles.parseDms " +10-20-3e1 " = some (false, 10, 20, (3, 1)) ∧
+    Angles.parseDms "-0-0-1.5" = some (true, 0, 0, (15, -1)) :=
+  ⟨by decide +kernel, by decide +kernel, by decide +kernel⟩
+
+/-- the assembled mirror theorem is not vacuous: a pass of a direction (observed without misclosure,
+    so its right-hand side is 0 ≠ 200 gon) and a distance linearises in both descriptions, with
+    guards and naming as required -/
+example : ∃ (fuel fuel' : Nat) (outs outs' : Fin 2 → LinOut ℝ),
+    Linearises fuel witnessRows outs ∧ Linearises fuel' (fun i => mirRow (witnessRows i)) outs' ∧
+    (∀ i, guard (witnessRows i).kind (witnessRows i).o) ∧ (∀ i r c, ((witnessRows i).name r c).c = c) ∧
+    (∀ i, (witnessRows i).kind.angular = true → (outs i).rhs ≠ HALF) := by
+  obtain ⟨f, outs, hl, h0⟩ := witness_linearises
+  obtain ⟨f', outs', hl'⟩ := witness_mirror_linearises
+  refine ⟨f, f', outs, outs', hl, hl', witness_guard, witness_name, fun i hi => ?_⟩
+  fin_cases i
+  · show (outs 0).rhs ≠ HALF
+    rw [h0]; unfold HALF; norm_num
+  · simp [witnessRows, Kind.angular] at hi
+
+/-- the assembled rotation theorem is not vacuous: the direction row of the same pass turned by
+    50 gon stays inside the half circle (`|0 + 50 gon| < 200 gon`), its orientation unknown `⟨10, ori⟩`
+    belongs to no other row -/
+example : ∃ (fuel fuel' : Nat) (outs outs' : Fin 2 → LinOut ℝ) (R : Finset (Fin 2)) (uOri : Unk),
+    R.Nonempty ∧ uOri.c = .ori ∧
+    (∀ i ∈ R, (witnessRows i).kind = .direction ∧ (witnessRows i).name .station .ori = uOri) ∧
+    (∀ i, i ∉ R → ∀ r, (witnessRows i).name r .ori ≠ uOri) ∧ Linearises fuel witnessRows outs ∧
+    (∀ i ∈ R, Gen.Lin.direction fuel' (rotObs (π / 4) (witnessRows i).o) = .ok (outs' i)) ∧
+    (∀ i ∈ R, |(outs i).rhs + π / 4 * R2CC| < HALF) := by
+  obtain ⟨f, outs, hl, h0⟩ := witness_linearises
+  obtain ⟨f', out', hr⟩ := Lin.direction_terminates (rotObs (π / 4) exactSight) exactSight_guard
+  refine ⟨f, f', outs, fun _ => out', {0}, ⟨10, .ori⟩, ⟨0, by simp⟩, rfl, ?_, ?_, hl, ?_, ?_⟩
+  · intro i hi; rw [Finset.mem_singleton] at hi; subst hi; exact ⟨rfl, rfl⟩
+  · intro i hi r
+    fin_cases i
+    · simp at hi
+    · cases r <;> simp [witnessRows, witnessName]
+  · intro i hi; rw [Finset.mem_singleton] at hi; subst hi; exact hr
+  · intro i hi; rw [Finset.mem_singleton] at hi; subst hi
+    rw [h0]
+    have hpi := Real.pi_pos
+    have : π / 4 * R2CC = 500000 := by unfold R2CC; field_simp; norm_num
+    rw [zero_add, this]; unfold HALF; rw [abs_of_pos (by norm_num)]; norm_num
+
+/-- the cofactor transport is not vacuous: `N = Q = 1` (unit weights, `A = 1`), any subset, signs `(1, -1)` -/
+example : LS.IsReflGInv ((1 : Matrix (Fin 2) (Fin 2) ℝ)ᵀ * 1 * 1) 1 ∧ LS.BelongsTo (1 : Matrix (Fin 2) (Fin 2) ℝ) {0} 1 ∧
+    (∀ j, (![1, -1] : Fin 2 → ℝ) j * ![1, -1] j = 1) := by
+  refine ⟨by simp [LS.IsReflGInv], fun y g hg => ?_, fun j => by fin_cases j <;> simp⟩
+  have : g = 0 := by simpa using hg
+  simp [this]
 
 /-- all sixteen axes/angles combinations: eight consistent, eight not -/
 example : ((List.product [CS.EN, .NW, .SE, .WS, .NE, .SW, .ES, .WN] [true, false]).filter
